@@ -306,6 +306,61 @@ void chain(std::uint64_t seed, int depth)
    W.check_all();
    ctx().count("chains");
 }
+// Member lists longer than any narrow index type could count: positions and levels at and beyond 2^8 and 2^16.
+// Positions are read from the members themselves (the list's own indexing is linear per access); the list is probed at a few
+// indices around the boundaries.  `which`: 0 mapping parameters, 1 enumerators, 2 bases, 3 lambda parameters.
+void long_list(std::uint64_t seed, int which)
+{
+   Rng rng(seed);
+   impl::Lexicon lex; impl::Translation_unit unit { lex };
+   const Lexicon& L = lex; auto& greg = *unit.global_region();
+   const std::size_t n = 65536 + 24 + rng.below(40);
+   auto& id = lex.get_identifier(u8"m");
+   const char* kind = which == 0 ? "parameter" : which == 1 ? "enumerator" : which == 2 ? "base" : "lambda-parameter";
+   auto V = [&](const std::string& what, const std::string& msg, std::size_t i) { ctx().viol(std::string("long-list:") + kind + ":" + what, msg, J().s("kind", kind).n("members", (long long)n).n("index", (long long)i).str()); };
+   std::vector<const Decl*> ms; ms.reserve(n);
+   const Sequence<Decl>* seq_p = nullptr; const Sequence<Enumerator>* seq_e = nullptr; const Sequence<Base_type>* seq_b = nullptr; const Sequence<Parameter>* seq_pp = nullptr;
+   const Region* home = nullptr;
+   const Mapping_level lvl { 1 + rng.below(3) };
+   if (which == 0) { auto* m = lex.make_mapping(greg, lvl); for (std::size_t i = 0; i < n; ++i) ms.push_back(m->param(id, L.int_type())); seq_pp = &m->parameters().elements(); home = &m->parameters().region(); }
+   else if (which == 1) { auto* e = lex.make_enum(greg, Enum::Kind::Scoped); for (std::size_t i = 0; i < n; ++i) ms.push_back(e->add_member(id)); seq_e = &e->members(); home = &e->region(); }
+   else if (which == 2) { auto* c = lex.make_class(greg); for (std::size_t i = 0; i < n; ++i) ms.push_back(c->declare_base(L.int_type())); seq_b = &c->bases(); }
+   else { auto* m = lex.make_lambda(greg, lvl); for (std::size_t i = 0; i < n; ++i) ms.push_back(m->inputs.add_member(id, L.int_type())); seq_pp = &m->parameters().elements(); home = &m->parameters().region(); }
+   (void)seq_p;
+   for (std::size_t i = 0; i < n; ++i) {
+      std::size_t pos = ~std::size_t(0);
+      if (auto p = util::view<Parameter>(*ms[i])) { pos = std::size_t(p->position()); if (p->level() != lvl) V("level", "a parameter far down a long list does not report the level of its list", i); }
+      else if (auto e = util::view<Enumerator>(*ms[i])) pos = std::size_t(e->position());
+      else if (auto b = util::view<Base_type>(*ms[i])) pos = std::size_t(b->position());
+      if (pos != i) { V("position", std::string("member ") + (i < 256 ? "below 2^8" : i < 65536 ? "between 2^8 and 2^16" : "at or beyond 2^16") + " reports a position that is not its zero-based index", i); break; }
+      if (home && &ms[i]->home_region() != home) { V("home-region", "a member far down a long list does not report the region of its list", i); break; }
+      ctx().count(std::string("long_list_members_checked:") + kind);
+   }
+   const std::size_t probes[] = { 0, 255, 256, 257, 65535, 65536, 65537, n - 1 };
+   for (auto i : probes) {
+      const Decl* got = seq_pp ? static_cast<const Decl*>(&*seq_pp->position(i)) : seq_e ? static_cast<const Decl*>(&*seq_e->position(i)) : static_cast<const Decl*>(&*seq_b->position(i));
+      if (got != ms[i]) V("order", "element " + std::to_string(i) + " of a long list is not the member added at that position", i);
+   }
+   const std::size_t sz = seq_pp ? seq_pp->size() : seq_e ? seq_e->size() : seq_b->size();
+   if (sz != n) V("size", "a long list reports " + std::to_string(sz) + " members, " + std::to_string(n) + " were added", n);
+   ctx().count("long_lists"); ctx().maxi("longest_member_list", (long long)n);
+   ctx().eval(hash_mix(0x10461157, std::uint64_t(which)));
+}
+
+// nesting levels at and beyond the widths a narrow field could hold
+void wide_levels(std::uint64_t seed)
+{
+   Rng rng(seed);
+   impl::Lexicon lex; impl::Translation_unit unit { lex };
+   const Lexicon& L = lex; auto& greg = *unit.global_region();
+   for (std::size_t lv : { std::size_t(0), std::size_t(1), std::size_t(255), std::size_t(256), std::size_t(65535), std::size_t(65536), std::size_t(1) << 31, (std::size_t(1) << 32) + 5, ~std::size_t(0) >> 1 }) {
+      auto* m = lex.make_mapping(greg, Mapping_level { lv });
+      auto* p = m->param(lex.get_identifier(u8"p"), L.int_type());
+      if (std::size_t(m->parameters().level()) != lv || std::size_t(p->level()) != lv)
+         ctx().viol("wide-level:parameter", "a mapping created at nesting level " + std::to_string(lv) + " reports another level through its parameter list or parameter", J().n("level", (long long)lv).str());
+      ctx().count("wide_levels_checked");
+   }
+}
 } // namespace
 
 static void body(Ctx& C)
@@ -324,6 +379,10 @@ static void body(Ctx& C)
    for (int i = 0; i < shorts; ++i) random_program(seeds.next(), 10 + int(seeds.below(70)), C.thorough ? 60 : 12, true);
    for (int i = 0; i < longs; ++i) random_program(seeds.next(), C.thorough ? 6000 : 1500, C.thorough ? 200 : 40, false);
    for (int i = 0; i < (C.thorough ? 12 : 2); ++i) chain(seeds.next(), C.thorough ? 2000 : 400);
+   // one long list per worker (quadratic to build: a parameter or base list of 65 600 members costs 10-20 s)
+   wide_levels(seeds.next());
+   if (C.worker < 4 || C.thorough) long_list(seeds.next(), C.worker % 4);
+   for (auto k : { "long_lists", "wide_levels_checked", "long_list_members_checked:parameter", "long_list_members_checked:enumerator", "long_list_members_checked:base", "long_list_members_checked:lambda-parameter" }) C.need(k);
 }
 
 int main(int argc, char** argv) { return guarded_main(argc, argv, body); }
